@@ -1,6 +1,9 @@
 import Mutagen.Model.Lifecycle
 import Mutagen.Proofs.Lifecycle
 import Mutagen.Proofs.Lifecycle2
+import Mutagen.Proofs.Lifecycle3
+import Mutagen.Proofs.Lifecycle4
+import Mutagen.Proofs.Lifecycle5
 /-!
 # C29 — session lifecycle commands take effect exactly as documented
 
@@ -86,5 +89,91 @@ theorem pause_ends_only_by_resume_reset_terminate {w : Bool} {tr : List Label} {
       · exact Or.inl h1
       · exact Or.inr (Or.inl ⟨th, hth, h1⟩)
       · exact Or.inr (Or.inr ⟨th, hth, h1⟩)
+
+/-- **`Paused` is persisted before `pause` returns.** In every run, when a
+`pause` call returns successfully there is an earlier point of the same run,
+during the call (the call `t` is in flight there), at which the `Paused` flag
+was on disk and the run loop had terminated (its `done` was closed, after the
+endpoints were shut down). Together with `paused_session_is_silent` and
+`pause_ends_only_by_resume_reset_terminate`: from that point on nothing
+happens at the endpoints until a `resume`/`reset` clears the flag. -/
+theorem pause_persisted_before_return {w : Bool} {tr : List Label} {s s' : State} {t : Nat}
+    (r : Run (init w) tr s) (st : Step s (.ret t .pause .ok) s') :
+    ∃ tr1 s1 tr2, Run (init w) tr1 s1 ∧ Run s1 tr2 s ∧ tr = tr1 ++ tr2 ∧
+      s1.sess = some true ∧ s1.loop = none ∧ ∃ y ∈ s1.threads, y.id = t ∧ y.op = .pause := by
+  obtain ⟨⟨th, hth, h1, h2, h3⟩, _⟩ := ret_source st
+  obtain ⟨tr1, s1, tr2, r1, r2, e, hs, hl, y, hy, hy1, hy2, _⟩ := pause_persisted r th hth h2 h3
+  exact ⟨tr1, s1, tr2, r1, r2, e, hs, hl, y, hy, hy1.trans h1, hy2⟩
+
+/-- **Terminate is final.** In every run, when a `terminate` call returns
+successfully the session file and the archive are gone, the controller is
+disabled with no run loop, and the session is no longer registered with the
+manager (so a reload finds nothing and later calls do not find the session). -/
+theorem terminate_final {w : Bool} {tr : List Label} {s s' : State} {t : Nat}
+    (r : Run (init w) tr s) (st : Step s (.ret t .terminate .ok) s') :
+    s'.sess = none ∧ s'.arch = none ∧ s'.running = false ∧ s'.loop = none ∧ s'.crit = none ∧
+    s'.disabled = true ∧ s'.entry = false := by
+  obtain ⟨⟨th, hth, _, h2, h3⟩, hs'⟩ := ret_source st
+  obtain ⟨g, he⟩ := (invT_run r th hth h2).2 h3
+  obtain ⟨g1, g2, g3, g4, g5, g6⟩ := g
+  subst hs'
+  exact ⟨g1, g2, g3, g4, g5, g6, he⟩
+
+/-- … and the state reached is `Dead` (no files, no loop, lock free, controller
+disabled, nothing registered) provided nobody is creating a session. -/
+theorem terminate_leaves_dead {w : Bool} {tr : List Label} {s s' : State} {t : Nat}
+    (r : Run (init w) tr s) (st : Step s (.ret t .terminate .ok) s')
+    (hnc : ∀ th ∈ s.threads, th.op ≠ .create true ∧ th.op ≠ .create false) : Dead s' := by
+  obtain ⟨h1, h2, h3, h4, h5, h6, _⟩ := terminate_final r st
+  refine ⟨h1, h2, h3, h4, h5, Or.inl h6, ?_⟩
+  obtain ⟨_, hs'⟩ := ret_source st
+  subst hs'
+  intro th hth
+  simp only [State.dropThread, List.mem_filter] at hth
+  exact hnc th hth.1
+
+/-- **A terminated session never runs again.** `Dead` is closed under every
+step except the arrival of a `create` call (a new session): whatever calls are
+still in flight or arrive later — pause, resume, flush, reset (with
+fixes/C29.patch), terminate, manager restarts — the files stay absent, no run
+loop is ever started, and no endpoint call is made. -/
+theorem dead_stays_dead {s s' : State} {l : Label} (d : Dead s) (st : Step s l s')
+    (hl : ∀ t p, l ≠ .call t (.create p)) : Dead s' ∧ l.isEndpoint = false := by
+  cases st with
+  | call h =>
+    rename_i t op
+    unfold doCall at h
+    split at h
+    · simp at h
+    · simp only [Option.some.injEq] at h
+      subst h
+      refine ⟨⟨d.sess, d.arch, d.running, d.loop, d.crit, ?_, ?_⟩, rfl⟩
+      · rcases d.unreachable with h | h
+        · exact Or.inl h
+        · refine Or.inr ⟨h.1, ?_⟩
+          intro th hth
+          simp only [List.mem_append, List.mem_singleton] at hth
+          rcases hth with hth | hth
+          · exact h.2 th hth
+          · subst hth; simp [mkThread]
+      · intro th hth
+        simp only [List.mem_append, List.mem_singleton] at hth
+        rcases hth with hth | hth
+        · exact d.no_create th hth
+        · subst hth
+          simp only [mkThread]
+          exact ⟨fun e => hl t true (by rw [e]), fun e => hl t false (by rw [e])⟩
+  | internal h =>
+    unfold succ at h
+    rcases List.mem_append.mp h with h | h
+    · simp [d.loop] at h
+    · obtain ⟨th, hth, h⟩ := List.mem_flatMap.mp h
+      refine ⟨dead_thread hth h d, ?_⟩
+      cases hle : l.isEndpoint with
+      | false => rfl
+      | true =>
+        obtain ⟨_, t, ph, hc, _⟩ := threadSteps_endpoint h hle
+        rw [d.crit] at hc
+        simp at hc
 
 end Mutagen.Properties.C29
